@@ -85,7 +85,10 @@ def streams(ctx):
     # regimes that only exist at magnitudes the thinned / size-capped source streams above never reach on the instrumented
     # build: PhiCache with its 16 MiB limit active (x > ~1.2e15, a >= 130), through phi and through the algorithms using it
     big = ["phi_t 2000000000000000 200 16", "phi_t 2000000000000000 199 16", "phi_t 1300000000000000 131 1",
-           "phi_t 10000000000000000 250 16", "alg meissel 2000000000000000 16", "alg legendre 1300000000000000 16"]
+           "phi_t 10000000000000000 250 16", "alg meissel 2000000000000000 16", "alg legendre 1300000000000000 16",
+           # 128-bit P2 / B with pi(y) > 2^31.5 (finding F9: the closed form of P2 was multiplied in int64_t) and beyond 2^64
+           "wide_bp2 10000000000000000000000 99999960124 16", "wide_bp2 9999999999999999990000 99999998457 1",
+           "wide_bp2 18446744073709551616 4294667296 5", "wide_bp2 36893488147419103232 6074000000 2"]
     env = {"OMP_NUM_THREADS": "16", "ASAN_OPTIONS": "detect_leaks=0:abort_on_error=0:print_legend=0",
            "UBSAN_OPTIONS": "print_stacktrace=1:halt_on_error=1", "PCV_OP_TIMEOUT": "900"}
     out.append(Stream("san:large-magnitude", big, oracle=True, variant="san", env=env,
